@@ -300,6 +300,21 @@ class _RetryState:
             )
             return _RetryDecision("raise")
 
+        if attempt >= self.policy.max_attempts:
+            # Last permitted attempt: stop before computing a backoff, spending a
+            # budget token or emitting a retry that could never be followed by an attempt.
+            self.last_stop_reason = StopReason.MAX_ATTEMPTS_GLOBAL
+            self.emit(
+                EventName.MAX_ATTEMPTS_EXCEEDED.value,
+                attempt,
+                0.0,
+                klass,
+                exc,
+                stop_reason=StopReason.MAX_ATTEMPTS_GLOBAL,
+                cause=cause,
+            )
+            return _RetryDecision("raise")
+
         ctx = _build_backoff_context(
             attempt=attempt,
             classification=classification,
